@@ -53,6 +53,7 @@ func H_ended_then_ops() {
 		verifK.marks[i].state = kNone
 	}
 	if kind == 2 {
+		verifTable[i].live = false // the watch itself has ended: it does not count as its own parent (Dir(".") is ".")
 		parentListed := verifListed(verifDir(e.path))
 		verifAssert((ev.Op&Remove != 0) == !parentListed, "Remove for the deleted watched path unless the watched parent reports it")
 	}
@@ -109,8 +110,8 @@ func H_unlink_open() {
 	verifK.marks[i].state = kDying // last descriptor closed: the kernel destroys the mark
 	ev2, ok2 := verifDeliver(w, e.wd, unix.IN_DELETE_SELF, 0)
 	verifAssert(ok2, "reader keeps running")
-	verifAssert((ev2.Op == Remove && ev2.Name == e.path) || (ev2.Op == 0 && verifListed(verifDir(e.path))), "Remove once the last descriptor is closed, unless the watched parent already reported it")
 	verifTable[i].live = false
+	verifAssert((ev2.Op == Remove && ev2.Name == e.path) || (ev2.Op == 0 && verifListed(verifDir(e.path))), "Remove once the last descriptor is closed, unless the watched parent already reported it")
 	verifCheckList(w, verifLivePaths("", ""), " after the last descriptor was closed")
 	verifReach("unlink-open")
 }
